@@ -8,7 +8,8 @@ from .core import (SInt, SBool, SRatio, cur, And, Or, Not, Ite, Unsupported,
                    EngineLimit)
 from .seq import SSeq, SBytes, SStr, SByteArray, MSeq, BYTES, BARR, STR
 
-PROXY_TYPES = {SInt, SBool, SBytes, SStr, SByteArray, MSeq, SRatio}
+PROXY_TYPES = {SInt, SBool, SBytes, SStr, SByteArray, MSeq, SRatio,
+               core.SRat}
 _SEQ_PROXIES = (SSeq, MSeq)
 
 _CFUNC_TYPES = (types.BuiltinFunctionType, types.MethodDescriptorType,
@@ -228,7 +229,7 @@ def _m_float(*a):
         return 0.0
     x = a[0]
     if type(x) in (SInt, SBool):
-        return float(x.__index__())
+        return core.SRat(core.to_sint(x), 1)
     if type(x) in PROXY_TYPES:
         hook = FLOAT_HOOK[0]
         if hook is not None:
